@@ -175,11 +175,11 @@ example :
 /-- with no user in the catalogue a request passes the query gate only if its query *starts*
 with `CREATE USER … WITH ALL PRIVILEGES`. -/
 theorem bootstrap_first_is_create_admin (w : World) (c : Cfg) (method : String) (path : List Char) (req : Req)
-    (db : String) (q : List Stmt) (rt : RouteFact)
+    (db : String) (dbx : Bool) (q : List Stmt) (rt : RouteFact)
     (ha : w.authEnabled = true) (h0 : w.users = [])
     (hd : dispatch c method path = .route rt) (hsig : rt.sig = "user") (hm : method ≠ "OPTIONS")
     (hg : (routeGates rt).contains "query" = true)
-    (hp : decideBoot w c method path req db q = .pass) :
+    (hp : decideBoot w c method path req db dbx q = .pass) :
     ∃ s rest, q = s :: rest ∧ s.isCreateAdmin = true := by
   unfold decideBoot at hp
   simp only [hd, hm, hsig, ha, h0, hg, ne_eq, not_false_eq_true, decide_true, Bool.and_self, List.isEmpty_nil, ↓reduceIte,
@@ -195,7 +195,7 @@ theorem bootstrap_first_is_create_admin (w : World) (c : Cfg) (method : String) 
 /-- **the full statement** one would like — in the bootstrap state nothing but the creation of the
 administrator is let through — is false: the rule looks at the first statement only. -/
 def bootstrap_only_creates_admin_full : Prop :=
-  ∀ (q : List Stmt), decideBoot ⟨true, false, []⟩ basicCfg "POST" ['/', 'q', 'u', 'e', 'r', 'y'] ⟨"", "", .absent⟩ "" q = .pass →
+  ∀ (q : List Stmt), decideBoot ⟨true, false, []⟩ basicCfg "POST" ['/', 'q', 'u', 'e', 'r', 'y'] ⟨"", "", .absent⟩ "" false q = .pass →
     ∀ s ∈ q, s.isCreateAdmin = true
 
 def createAdminStmt : Stmt := ⟨"CreateUserStatement", "admin", [⟨true, "", false, .all⟩]⟩
@@ -208,17 +208,17 @@ theorem bootstrap_only_creates_admin_false : ¬ bootstrap_only_creates_admin_ful
 
 /-- **partial**: for single-statement queries it holds. -/
 theorem bootstrap_only_creates_admin_partial (s : Stmt)
-    (h : decideBoot ⟨true, false, []⟩ basicCfg "POST" ['/', 'q', 'u', 'e', 'r', 'y'] ⟨"", "", .absent⟩ "" [s] = .pass) :
+    (h : decideBoot ⟨true, false, []⟩ basicCfg "POST" ['/', 'q', 'u', 'e', 'r', 'y'] ⟨"", "", .absent⟩ "" false [s] = .pass) :
     s.isCreateAdmin = true := by
-  obtain ⟨s', rest, hq, hs⟩ := bootstrap_first_is_create_admin ⟨true, false, []⟩ basicCfg "POST" _ _ "" [s]
+  obtain ⟨s', rest, hq, hs⟩ := bootstrap_first_is_create_admin ⟨true, false, []⟩ basicCfg "POST" _ _ "" false [s]
     ⟨"lib/util/lifted/influx/httpd/handler.go:AddInfluxDBAPIRoutes", "", "query", "POST", "/query", "true", "true", "serveQuery", "user",
       ["query"], "AddInfluxDBAPIRoutes", false, ['/', 'q', 'u', 'e', 'r', 'y']⟩ rfl rfl (by decide) (by decide) (by decide) (by decide) h
   cases hq; exact hs
 
 -- everything else is refused while no user exists
-example : decideBoot ⟨true, false, []⟩ basicCfg "GET" ['/', 'q', 'u', 'e', 'r', 'y'] ⟨"", "", .absent⟩ "db0" readStmt = .d403 := by decide
-example : decideBoot ⟨true, false, []⟩ basicCfg "POST" ['/', 'w', 'r', 'i', 't', 'e'] ⟨"", "", .absent⟩ "db0" [] = .pass := by decide  -- 404: no database either
-example : decideBoot ⟨true, false, []⟩ basicCfg "POST" ['/', 'd', 'e', 'b', 'u', 'g', '/', 'c', 't', 'r', 'l'] ⟨"", "", .absent⟩ "" [] = .d403 := by decide
+example : decideBoot ⟨true, false, []⟩ basicCfg "GET" ['/', 'q', 'u', 'e', 'r', 'y'] ⟨"", "", .absent⟩ "db0" true readStmt = .d403 := by decide
+example : decideBoot ⟨true, false, []⟩ basicCfg "POST" ['/', 'w', 'r', 'i', 't', 'e'] ⟨"", "", .absent⟩ "db0" true [] = .d403 := by decide
+example : decideBoot ⟨true, false, []⟩ basicCfg "POST" ['/', 'd', 'e', 'b', 'u', 'g', '/', 'c', 't', 'r', 'l'] ⟨"", "", .absent⟩ "" false [] = .d403 := by decide
 
 /-! ## Part 9 — bearer tokens -/
 
@@ -256,6 +256,25 @@ example : authBearer { demoWorld with sharedSecret := false } ((⟨.hs256, .empt
 example : authBearer demoWorld ((⟨.rs256, .server, .future, .absent, .name "root"⟩ : JwtTok).abstract true) = .deny 401 := by decide
 example : authBearer demoWorld ((⟨.hs512, .server, .future, .past, .name "wo"⟩ : JwtTok).abstract true)
     = .inner (some ⟨"wo", "q", false, false, [("db0", .write)]⟩) := by decide
+
+/-! ## registration switches -/
+
+def allCfgs : List Cfg :=
+  [false, true].flatMap fun a => [false, true].flatMap fun b => [false, true].flatMap fun c => [false, true].map fun d => ⟨a, b, c, d⟩
+
+/-- no registration is dead: every Route literal is live under some combination of the switches
+(product type, flux-enabled, pprof-enabled, runtime-config), and `routeLive` understands every
+condition the extractor found (an unknown condition would make the literal live nowhere). -/
+theorem routes_live_somewhere : ∀ r ∈ routes, allCfgs.any (fun c => routeLive c r) = true := by decide +kernel
+
+/-- … and under every combination every live registration is guarded or listed (this is
+`all_routes_guarded_partial`, which quantifies over the whole table, restated per configuration). -/
+theorem live_routes_guarded (c : Cfg) : ∀ r ∈ routes.filter (routeLive c),
+    knownOpen.contains (r.method, r.pattern) = false →
+    (Endpoint.guarded ⟨r.method, r.pattern, r.handler, r.cond, r.sig == "user", shadowed r⟩) = true := by
+  intro r hr hk
+  have hm : r ∈ routes := (List.mem_filter.mp hr).1
+  exact all_routes_guarded_partial _ (by unfold endpoints; exact List.mem_append_left _ (List.mem_map.mpr ⟨r, hm, rfl⟩)) hk
 
 /-! ## the entry points that are not routes -/
 
